@@ -121,8 +121,31 @@ impl Sub for ModelRoundTrip {
                     // the corpus refers to seed rows by their rendered feature string: rebuild it
                     spec.resync_corpus();
                 }
+                // one more user row that mixes the cells of the two seed rows used first in the corpus: its merged
+                // weight tends to exceed every seed word's, so that loading it moves the 16-bit scale of the costs
+                if let Some(u) = spec.user.as_mut() {
+                    let gold: Vec<&crate::gen::train::SeedRow> = spec
+                        .corpus
+                        .iter()
+                        .flatten()
+                        .filter_map(|(sf, feat)| spec.lex.iter().find(|r| r.surface == *sf && r.feature() == *feat))
+                        .collect();
+                    if let (Some(a), Some(b)) = (gold.first(), gold.iter().find(|r| r.cells != gold[0].cells)) {
+                        let n = a.cells.len().max(b.cells.len());
+                        let cells: Vec<String> = (0..n)
+                            .map(|i| if i % 2 == 0 { a.cells.get(i).or(b.cells.get(i)) } else { b.cells.get(i).or(a.cells.get(i)) }.cloned().unwrap_or_else(|| "*".into()))
+                            .collect();
+                        // first, so that the first AddUser of the history loads it
+                        u.insert(0, crate::gen::train::UserRow { surface: "zq".into(), left: 0, right: 0, cost: 0, cells });
+                    }
+                }
                 let nuser = spec.user.as_ref().map_or(0, |u| u.len());
-                let before = b.iter().map(|k| if *k == 0 { MOp::Gen } else { MOp::GenBigram }).collect();
+                let mut before: Vec<MOp> = b.iter().map(|k| if *k == 0 { MOp::Gen } else { MOp::GenBigram }).collect();
+                // mostly at least one dictionary generation before the model is written (whatever the in-memory model
+                // caches at that point must not survive a later read_user_lexicon)
+                if !before.contains(&MOp::Gen) && a.first().map_or(false, |x| x % 4 != 0) {
+                    before.push(MOp::Gen);
+                }
                 let mut added = 0;
                 let mut after = vec![];
                 for k in a {
@@ -256,7 +279,7 @@ pub fn run(opts: &Opts) -> Report {
     ];
     let a = ModelRoundTrip;
     crate::props::committed_replays(&a, opts, &mut rep);
-    run_sub(&a, opts, opts.tier.pick(3000, 50_000), &mut rep);
+    run_sub(&a, opts, opts.tier.pick(6000, 90_000), &mut rep);
     rep
 }
 
